@@ -18,7 +18,7 @@ Classes == {"der_ok", "der_bad", "der_len_long_form", "der_indefinite", "der_lea
             "cmp_ok", "cmp_bad_len", "cmp_zero", "cmp_ge_n", "cmpv_ok",
             "bip_ok", "bip_len_edge", "bip_bad", "bip_but_not_der", "bip_neg", "bip_padding",
             "spki_ok_unc", "spki_ok_cmp", "spki_unused_bits", "spki_unused_bits_zero_pad", "spki_bad_oid", "spki_trailing",
-            "spki_bad_point", "spki_identity", "spki_params", "spki_bad", "random_bytes", "model_sig_shape", "model_spki_shape"}
+            "spki_bad_point", "spki_identity", "spki_params", "spki_bad", "random_bytes", "model_sig_shape", "model_spki_shape", "enc_stable"}
 
 DerClasses(b, d) ==
   (IF d[1] = "ok" THEN {"der_ok"} ELSE {"der_bad"})
@@ -67,6 +67,7 @@ Verdict(ev) ==
             \cup (IF want /\ ParseDerSig(SubSeq(b, 1, Len(b) - 1))[1] = "err" THEN {"bip_but_not_der"} ELSE {})
             \cup (IF ~want /\ Len(b) >= 9 /\ b[5] >= 128 THEN {"bip_neg"} ELSE {})
             \cup (IF ~want /\ Len(b) >= 9 /\ b[4] > 1 /\ b[5] = 0 /\ b[6] < 128 THEN {"bip_padding"} ELSE {}) >>
+    [] ev.ev = "sig.Stable" -> << ev.now = ev.then, {"enc_stable"} >>       \* an encoding handed out earlier is untouched by later encoding calls
     [] ev.ev = "spki.Parse" ->
          LET b == HB(ev["in"])  d == ParseSpki(b) IN
          << ~ev.panic
